@@ -5,9 +5,10 @@
    Positions are values of ANY type T with ANY binary operation [add] and ANY [zero]: no arithmetic law is used --
    "initial position plus offset" is literally [add p0 off].  The tie instantiates T = Z (Python ints) and T = binary64
    (Python floats, bit-exact).
-   PARTIAL (hence the names): independent devices only.  The pseudo-positioner branches of _normalize_devices /
-   __read_and_stash_a_motor (coupled_parents non-empty: a pseudo axis also records its parent and siblings, the cleanup
-   skips children of coupled parents) are not in the model; see manifest_parts/C24.json.
+   Devices may have parents.  PARTIAL (hence the names): the pseudo-positioner coupling (coupled_parents non-empty: a
+   pseudo axis also records its parent and siblings, the cleanup skips the axes of coupled parents) IS in the model
+   ([record], [restored]) and in the tie, and the reset theorems hold with it; the per-step offsets theorem is
+   proved for device sets without a coupled pseudo-positioner only; see manifest_parts/C24.json.
 
    All theorems: for EVERY wrapped plan (any coalgebra P, resume, any state p), every message encoding with
    view (mk v) = v, every device classification [kind] / [elig] (`devices is None or obj in devices`), every answer
@@ -31,10 +32,12 @@ From BV Require Gen.Tie Gen.TiePaired Gen.TieRelative.
    5. every message that is not a set passes unchanged. *)
 Theorem C24_relative_sets_are_offsets_partial :
   forall (T P : Type) (add : T -> T -> T) (zero : T) (pos_of : val -> T) (kind : dev -> dkind) (position : dev -> T)
-         (resume : P -> input -> outcome P) (view : msg -> rview T) (mk : rview T -> msg) (elig : dev -> bool),
+         (resume : P -> input -> outcome P) (view : msg -> rview T) (mk : rview T -> msg) (elig : dev -> bool)
+         (parent : dev -> option dev) (coupled : dev -> bool) (pseudos : dev -> list dev) (comps : T -> list T),
     (forall v, view (mk v) = v) ->
+    (forall p, coupled p = false) ->           (* any parents (stage.x ...), but no coupled pseudo-positioner *)
     forall (p : P) (s : list input) x i m x',
-      let ins := ins_resume resume (rel_decide zero pos_of kind position view mk elig) in
+      let ins := ins_resume resume (rel_decide zero pos_of kind position view mk elig parent coupled pseudos comps) in
       after ins (IStart p []) s = Some x -> ins x i = Yielded m x' ->
       recorded zero pos_of kind position elig (ins_store x Close) (ins_store x' Close) /\
       (forall d p0, ps_get d (ins_store x Close) = Some p0 -> ps_get d (ins_store x' Close) = Some p0) /\
@@ -52,11 +55,12 @@ Print Assumptions C24_relative_sets_are_offsets_partial.
 Theorem C24_reset_trace_partial :
   forall (T P : Type) (zero : T) (pos_of : val -> T) (kind : dev -> dkind) (position : dev -> T)
          (resume : P -> input -> outcome P) (view : msg -> rview T) (mk : rview T -> msg) (elig : dev -> bool)
+         (parent : dev -> option dev) (coupled : dev -> bool) (pseudos : dev -> list dev) (comps : T -> list T)
          (p : P) (s : list input),
     plain s = true ->
-    trace (reset_resume zero pos_of kind position resume view mk elig) (reset_init p) (Send VNone :: s)
-    = s2_ref (ins_resume resume (rel_decide zero pos_of kind position view mk elig)) ins_store
-             (lp_resume (fun _ => false)) (fw_next (reset_plan mk)) (IStart p []) (Send VNone :: s).
+    trace (reset_resume zero pos_of kind position resume view mk elig parent coupled pseudos comps) (reset_init p) (Send VNone :: s)
+    = s2_ref (ins_resume resume (rel_decide zero pos_of kind position view mk elig parent coupled pseudos comps)) ins_store
+             (lp_resume (fun _ => false)) (fw_next (reset_plan mk parent coupled)) (IStart p []) (Send VNone :: s).
 Proof. exact @reset_trace. Qed.
 Print Assumptions C24_reset_trace_partial.
 
@@ -67,26 +71,40 @@ Print Assumptions C24_reset_trace_partial.
 Theorem C24_reset_restores_all_partial :
   forall (T P : Type) (zero : T) (pos_of : val -> T) (kind : dev -> dkind) (position : dev -> T)
          (resume : P -> input -> outcome P) (view : msg -> rview T) (mk : rview T -> msg) (elig : dev -> bool)
+         (parent : dev -> option dev) (coupled : dev -> bool) (pseudos : dev -> list dev) (comps : T -> list T)
          (p : P) (s : list input) ms t st vs rest c,
     plain s = true ->
-    split (ins_resume resume (rel_decide zero pos_of kind position view mk elig)) ins_store (IStart p []) (Send VNone :: s)
+    split (ins_resume resume (rel_decide zero pos_of kind position view mk elig parent coupled pseudos comps)) ins_store
+          (IStart p []) (Send VNone :: s)
       = (ms, Some (t, st, map Send vs ++ rest)) ->
-    plain_end t = Some c -> length vs = S (length st) ->
-    trace (reset_resume zero pos_of kind position resume view mk elig) (reset_init p) (Send VNone :: s)
+    plain_end t = Some c -> length vs = S (length (restored parent coupled st)) ->
+    trace (reset_resume zero pos_of kind position resume view mk elig parent coupled pseudos comps) (reset_init p) (Send VNone :: s)
     = map OYield ms
-      ++ map OYield (map (fun kv => mk (RSet (fst kv) (snd kv) G_RESET)) st ++ [mk (RWait G_RESET)])
+      ++ map OYield (map (fun kv => mk (RSet (fst kv) (snd kv) G_RESET)) (restored parent coupled st) ++ [mk (RWait G_RESET)])
       ++ [compl_obs c].
 Proof. exact @reset_restores_all. Qed.
 Print Assumptions C24_reset_restores_all_partial.
 
+(* WHICH devices are restored: [restored] drops exactly the recorded devices whose parent is a coupled
+   pseudo-positioner parent (`k.parent in coupled_parents`); a device whose parent is an ordinary device (stage.x),
+   or that has no parent, is never dropped -- with no coupled parent at all, every recorded device is restored *)
+Theorem C24_restored_spec :
+  forall (T : Type) (parent : dev -> option dev) (coupled : dev -> bool) (st : @pstore T),
+    (forall d v, In (d, v) (restored parent coupled st) <->
+                 In (d, v) st /\ (forall p, parent d = Some p -> coupled p = false)) /\
+    ((forall p, coupled p = false) -> restored parent coupled st = st).
+Proof. exact @restored_spec. Qed.
+Print Assumptions C24_restored_spec.
+
 Definition C24_full : Prop :=
-  (* the two clauses above, for independent devices; the property additionally speaks of pseudo-positioners
-     (coupled_parents), which the model does not have *)
+  (* the offsets clause for EVERY device set, coupled pseudo-positioners included and without the finding class; proved
+     above: without coupled parents and outside class C24-a *)
   (forall (T P : Type) (add : T -> T -> T) (zero : T) (pos_of : val -> T) (kind : dev -> dkind) (position : dev -> T)
-          (resume : P -> input -> outcome P) (view : msg -> rview T) (mk : rview T -> msg) (elig : dev -> bool),
+          (resume : P -> input -> outcome P) (view : msg -> rview T) (mk : rview T -> msg) (elig : dev -> bool)
+          (parent : dev -> option dev) (coupled : dev -> bool) (pseudos : dev -> list dev) (comps : T -> list T),
       (forall v, view (mk v) = v) ->
       forall (p : P) (s : list input) x i m x' d off g,
-        let ins := ins_resume resume (rel_decide zero pos_of kind position view mk elig) in
+        let ins := ins_resume resume (rel_decide zero pos_of kind position view mk elig parent coupled pseudos comps) in
         after ins (IStart p []) s = Some x -> ins x i = Yielded m x' ->
         view m = RSet d off g -> elig d = true ->
         exists p0, ps_get d (ins_store x' Close) = Some p0 /\ rewrite_pos add view x' m = Some (RSet d (add p0 off) g)).
@@ -98,7 +116,8 @@ Definition fa_tbl : list (rview Z) := [RSet 0 1%Z 1; RLocate 0].
 Definition fa_plan : stmt := STry (SYield None 0) [(PException, SYield None 0)] SPass SPass.
 Definition fa_ins := ins_resume (cl_resume tie_fuel)
                                 (rel_decide 0%Z (pos_of_t 0%Z [0%Z; 5%Z]) (fun _ => KLocatable) (fun _ => 0%Z)
-                                            (rview_t fa_tbl) (rmk_t Z.eqb fa_tbl) (fun _ => true)).
+                                            (rview_t fa_tbl) (rmk_t Z.eqb fa_tbl) (fun _ => true)
+                                            (fun _ => None) (fun _ => false) (fun _ => []) (fun _ => [])).
 
 Definition is_none {A} (o : option A) : bool := match o with None => true | Some _ => false end.
 
@@ -128,15 +147,19 @@ Definition nv_tbl : list (rview Z) :=
 Definition nv_plan : stmt := SSeq (SYield None 0) (SSeq (SYield None 1) (SSeq (SYield None 2) (SRaise (EUser 1)))).
 Definition nv_kind (d : dev) : dkind := match d with 0 => KLocatable | _ => KPosition end.
 Definition nv_pos_attr (d : dev) : Z := (-2)%Z.
+Definition nv_parent (d : dev) : option dev := match d with 0 | 1 => Some 7 | _ => None end.   (* stage.x, stage.y *)
 
-(* device 0 is located at 5, device 1 has position -2; the plan moves them by +1 and -4, waits, then fails:
+(* devices 0 and 1 are the axes of an ordinary parent device 7 (stage.x, stage.y).
+   device 0 is located at 5, device 1 has position -2; the plan moves them by +1 and -4, waits, then fails:
    reset(relative(plan)) commands 6 and -6, then sends both back to 5 and -2 and re-raises *)
 Example C24_nonvacuous :
   let rel := rel_resume Z.add 0%Z (pos_of_t 0%Z [0%Z; 5%Z]) nv_kind nv_pos_attr (cl_resume tie_fuel)
-                        (rview_t nv_tbl) (rmk_t Z.eqb nv_tbl) (rmkn_t Z.eqb nv_tbl) (fun _ => true) in
+                        (rview_t nv_tbl) (rmk_t Z.eqb nv_tbl) (rmkn_t Z.eqb nv_tbl) (fun _ => true)
+                        nv_parent (fun _ => false) (fun _ => []) (fun _ => []) in
   let s := [Send (VInt 1); Send (VInt 1); Send VNone; Send VNone; Send VNone; Send VNone; Send VNone; Send VNone] in
   plain s = true /\
-  trace (reset_resume 0%Z (pos_of_t 0%Z [0%Z; 5%Z]) nv_kind nv_pos_attr rel (rview_t nv_tbl) (rmk_t Z.eqb nv_tbl) (fun _ => true))
+  trace (reset_resume 0%Z (pos_of_t 0%Z [0%Z; 5%Z]) nv_kind nv_pos_attr rel (rview_t nv_tbl) (rmk_t Z.eqb nv_tbl) (fun _ => true)
+                      nv_parent (fun _ => false) (fun _ => []) (fun _ => []))
         (reset_init (rel_init (cl_init nv_plan))) (Send VNone :: s)
   = [OYield 3; OYield 3; OYield (4 + 64); OYield (5 + 128); OYield 2; OYield 6; OYield 7; OYield 8; ORaise (EUser 1)].
 Proof. vm_compute. split; reflexivity. Qed.
